@@ -120,7 +120,9 @@ class LinkerScripted(BoundedCheck):
         before = {sid: {k: m[k].copy() for k in ('X', 'Z', 'status', 'iterations')} for sid, m in subs.items()}
         kw = dict(min_iter=case['min_iter'], max_iter=case['max_iter'], tol=TOL, failures=case['failures'], offset=case['offset'])
         if sel is not None:
-            kw['submodels'] = sel
+            # the selection in the spellings a caller may use for "a sequence of ids": list, tuple, dict keys (chosen by the case, deterministically)
+            spelling = (len(repr(case)) + len(sel)) % 3
+            kw['submodels'] = list(sel) if spelling == 0 else tuple(sel) if spelling == 1 else dict.fromkeys(sel).keys() if len(set(sel)) == len(sel) else tuple(sel)
         exc = result = None
         with warnings.catch_warnings():
             warnings.simplefilter('ignore')
